@@ -1895,8 +1895,14 @@ feature! {
             // behave as if it were absent. Its `max_level_hint` of `OFF` only
             // means "nothing here wants anything", so tell `Layered` not to let
             // that hint disable the subscribers around it.
-            if id == TypeId::of::<NoneLayerMarker>() && self.is_empty() {
-                return Some(NonNull::from(&NONE_LAYER_MARKER).cast());
+            // The same goes for a `Vec` all of whose elements are absent; but
+            // a single real subscriber among them makes the `Vec` present.
+            if id == TypeId::of::<NoneLayerMarker>() {
+                return if self.iter().all(|s| s.downcast_raw(id).is_some()) {
+                    Some(NonNull::from(&NONE_LAYER_MARKER).cast())
+                } else {
+                    None
+                };
             }
 
             // Someone is looking for per-subscriber filters. But, this `Vec`
